@@ -121,6 +121,10 @@ class PresGen:
                 members["variant-twin"] = twin
                 members["variant-as"] = vas
                 members["variant-as-struct"] = vas_struct
+                # ... whatever the variant itself holds: nothing, or one field that is skipped
+                members["variant-as-unit"] = self.mk("enum", variants=[Variant("Va", "unit", extra_attrs=[as_attr]), Variant("Vb", "unit")], **reps)
+                members["variant-as-skipped"] = self.mk("enum", variants=[
+                    Variant("Va", "newtype", [Field(None, prim("u8"), extra_attrs=["#[ts(skip)]"])], extra_attrs=[as_attr]), Variant("Vb", "unit")], **reps)
                 variant_rep = rep
             else:
                 variant_rep = None
